@@ -60,7 +60,7 @@ def build_c():
     os.makedirs(CACHE, exist_ok=True)
     src = os.path.join(VERIF, "sim")
     for out, args in (
-        (SHIM, ["gcc", "-O2", "-shared", "-fPIC", "-o", SHIM + ".tmp", os.path.join(src, "simfs.c"), "-ldl"]),
+        (SHIM, ["gcc", "-O2", "-fno-delete-null-pointer-checks", "-shared", "-fPIC", "-o", SHIM + ".tmp", os.path.join(src, "simfs.c"), "-ldl"]),
         (STUB, ["gcc", "-O2", "-o", STUB + ".tmp", os.path.join(src, "stub_rustfmt.c")]),
     ):
         srcf = args[-2] if out == SHIM else args[-1]
@@ -470,11 +470,14 @@ def text_of(b):
     return b.decode("utf-8", errors="replace")
 
 
-def abnormal(res):
+def abnormal(res, ignore_injected=False):
     """C16-style monitor over one finished process: returns a site string or None."""
     err = text_of(res.stderr)
     if res.timed_out:
         return None
+    if ignore_injected and "rustfmt_verif: injected panic" in err:
+        # the injected panic itself prints a message and backtrace; what matters is how the process ends
+        err = re.sub(r"thread '[^']*' panicked at src/verif_hooks\.rs[^\n]*\n[^\n]*injected panic[^\n]*\n", "", err)
     m = re.search(r"panicked at ([^\n]*?):(\d+):(\d+):\n?([^\n]*)", err)
     if m:
         f = m.group(1)
